@@ -1,1 +1,3 @@
 import Driver.Proto
+import Driver.Disasm
+import Driver.Kinds
